@@ -58,6 +58,7 @@ fn build_suite(name: &str, params: &Value) -> Box<dyn Suite + Send + Sync> {
                     regions2: o["regions2"].as_bool().unwrap_or(false),
                     spacing_mode: o["mode"].as_u64().unwrap_or(1) as u32,
                     crlf_tokens: o["crlf_tokens"].as_bool().unwrap_or(false),
+                    fixed_regions: o["fixed_regions"].as_bool().unwrap_or(false),
                 })
             }).collect();
             let alt_spacings = params["alts"].as_array().map(|a| a.iter().map(|x| (x[0].as_u64().unwrap(), x[1].as_u64().unwrap() as u32)).collect()).unwrap_or_default();
@@ -251,6 +252,21 @@ fn main() {
                 println!("{}", json!({"prop": v.prop, "clause": v.clause, "detail": v.detail}));
             }
             println!("{}", json!({"viols": r.viols.len(), "nontrivial": r.nontrivial.iter().map(|(k, n)| (k.to_string(), *n)).collect::<HashMap<String, u64>>()}));
+        }
+        Some("lines") => {
+            // vh lines <cfg-json>  (text on stdin): the logical lines of the final stage
+            let cfg = cfg_from_json(&serde_json::from_str(args.get(2).map(|s| s.as_str()).unwrap_or("{}")).expect("cfg"));
+            let mut text = String::new();
+            std::io::Read::read_to_string(&mut std::io::stdin(), &mut text).unwrap();
+            obs::install_panic_hook();
+            let r = obs::run(&text, &cfg, &[], true);
+            let tin = obs::lex(&text).unwrap_or_default();
+            if let Some(fin) = mon::final_stage(&r.events) {
+                for (k, l) in fin.lines.iter().enumerate() {
+                    let words: Vec<&str> = l.tokens.iter().map(|&t| tin.get(t).map(|x| x.text(&text)).unwrap_or("?")).collect();
+                    println!("{k}: parent={:?} level={} type={} {:?}", l.parent, l.level, l.line_type, words);
+                }
+            }
         }
         Some("fmt") => {
             // vh fmt <cfg-json>   (stdin -> stdout), for replaying a single case
